@@ -29,6 +29,47 @@ func allFieldSels(d *gDoc) []*gSel {
 	return out
 }
 
+// ifaceSelSets: the field selections of the document whose value is of an interface type (their selection sets are
+// resolved at the interface: a field of an implementing object type that the interface does not define is not a
+// field there)
+func ifaceSelSets(d *gDoc, s *gSchema) []*gSel {
+	var out []*gSel
+	var walk func(ss []*gSel, ty string)
+	walk = func(ss []*gSel, ty string) {
+		t := s.by[ty]
+		if t == nil {
+			return
+		}
+		for _, sel := range ss {
+			switch sel.kind {
+			case "field":
+				for _, f := range t.fields {
+					if f.name == sel.name {
+						bn := f.t.baseName()
+						if bt := s.by[bn]; bt != nil && bt.kind == "iface" && len(sel.sels) > 0 {
+							out = append(out, sel)
+						}
+						walk(sel.sels, bn)
+					}
+				}
+			case "inline":
+				if sel.cond != "" {
+					walk(sel.sels, sel.cond)
+				} else {
+					walk(sel.sels, ty)
+				}
+			}
+		}
+	}
+	for _, op := range d.ops {
+		walk(op.sels, "Query")
+	}
+	for _, f := range d.frags {
+		walk(f.sels, f.cond)
+	}
+	return out
+}
+
 func c10Case(o *Out, r *Rng) {
 	s := genSchema(r)
 	g := genGraph(r, s)
@@ -36,7 +77,60 @@ func c10Case(o *Out, r *Rng) {
 	fields := allFieldSels(d)
 	kind := ""
 	reject := ""
-	switch c := r.Intn(7); {
+	switch c := r.Intn(8); {
+	case c == 7: // a field of an implementing object type, selected where only the interface is known
+		var cands []*gSel
+		var names [][]string
+		for _, sel := range ifaceSelSets(d, s) {
+			// the interface: the base type of the field (looked up again through every object / interface type)
+			var in *gType
+			for _, t := range s.types {
+				for _, f := range t.fields {
+					if f.name == sel.name {
+						if bt := s.by[f.t.baseName()]; bt != nil && bt.kind == "iface" {
+							in = bt
+						}
+					}
+				}
+			}
+			if in == nil {
+				continue
+			}
+			has := map[string]bool{}
+			for _, f := range in.fields {
+				has[f.name] = true
+			}
+			var extra []string
+			for _, t := range s.types {
+				implements := false
+				for _, i := range t.ifaces {
+					implements = implements || i == in.name
+				}
+				if t.kind != "object" || !implements {
+					continue
+				}
+				for _, f := range t.fields {
+					req := false
+					for _, a := range f.args {
+						req = req || a.required
+					}
+					if bt := s.by[f.t.baseName()]; !has[f.name] && !req && bt != nil && bt.kind == "leaf" {
+						extra = append(extra, f.name)
+					}
+				}
+			}
+			if len(extra) > 0 {
+				cands = append(cands, sel)
+				names = append(names, extra)
+			}
+		}
+		if len(cands) == 0 {
+			return
+		}
+		i := r.Intn(len(cands))
+		cands[i].sels = append(cands[i].sels, &gSel{kind: "field", name: Pick(r, names[i])})
+		kind = "field"
+		o.Count("undefined-field=of-the-object-type-at-an-interface-position")
 	case c == 0: // undefined field
 		f := Pick(r, fields)
 		f.name = "zzz"
